@@ -8,6 +8,8 @@ pool, where each worker has its own pid and runs in a main thread with the *same
   pipefunc.cache.os / .threading     -> getpid() / get_ident() of the simulated process / thread
   pipefunc._pipefunc.datetime        -> datetime.datetime.now() = a virtual clock that advances one microsecond per
                                         kernel event (strictly increasing, deterministic)
+  multiprocessing.parent_process     -> None in the simulated main program, an object in simulated pool workers and
+                                        in cases that run "as a multiprocessing child"
 """
 from __future__ import annotations
 
@@ -95,10 +97,47 @@ class _DatetimeModule:
         return getattr(_real_datetime, name)
 
 
+class _FakeParent:
+    """What multiprocessing.parent_process() returns inside a child: an object describing the parent."""
+
+    name = "MainProcess"
+    pid = 19999
+
+    def is_alive(self):
+        return True
+
+    def join(self, timeout=None):
+        return None
+
+
+_FAKE_PARENT = _FakeParent()
+_real_parent_process = None
+
+
+def sim_parent_process():
+    """multiprocessing.parent_process(): None in a main program; an object in a multiprocessing child.  Simulated pool
+    workers (process-mode executor tasks: proc is a tuple) are children; a whole case can also run "as a child"
+    (sim.as_mp_child), which is how a program looks that was itself started by multiprocessing."""
+    sim, th = _sim_thread()
+    if sim is None:
+        return _real_parent_process()
+    if getattr(sim, "as_mp_child", False) or (th is not None and isinstance(th.proc, tuple)):
+        return _FAKE_PARENT
+    return _real_parent_process()
+
+
 def install():
-    global _installed
+    global _installed, _real_parent_process
     if _installed:
         return
+    import multiprocessing
+    import multiprocessing.context
+    import multiprocessing.process
+
+    _real_parent_process = multiprocessing.process.parent_process
+    multiprocessing.process.parent_process = sim_parent_process
+    multiprocessing.parent_process = sim_parent_process
+    multiprocessing.context.BaseContext.parent_process = staticmethod(sim_parent_process)
     import pipefunc._pipefunc as pf
     import pipefunc.cache as pc
 
